@@ -12,6 +12,7 @@ from pygments.lexers import guess_lexer_for_filename
 from pygments.token import Comment, Keyword, Name, Number, Operator, String
 from pygments.token import Text as TextToken
 from pygments.token import Token
+from pygments.util import ClassNotFound
 
 from . import pretty
 from ._loop import loop_first, loop_last
@@ -426,9 +427,12 @@ class Traceback:
     @classmethod
     def _guess_lexer(cls, filename: str, code: str) -> str:
         ext = os.path.splitext(filename)[-1]
-        lexer_name = (
-            cls.LEXERS.get(ext) or guess_lexer_for_filename(filename, code).name
-        )
+        try:
+            lexer_name = (
+                cls.LEXERS.get(ext) or guess_lexer_for_filename(filename, code).name
+            )
+        except ClassNotFound:
+            lexer_name = "text"
         return lexer_name
 
     @render_group()
